@@ -17,6 +17,7 @@ import (
 	"strings"
 	"sync"
 	"sync/atomic"
+	"time"
 
 	dsserver "github.com/ahimsalabs/durable-streams-go/durablestream"
 	"github.com/ahimsalabs/durable-streams-go/durablestream/memorystorage"
@@ -65,7 +66,7 @@ func durableURL(chunk int) string {
 
 // Kinds lists every configuration name Open understands.
 func Kinds() []string {
-	return []string{"memory", "memory-paged", "sqlite-file", "sqlite-mem", "sqlite-batch1", "sqlite-batch2", "sqlite-batch3", "sqlite-batch5", "sqlite-batch1000", "durable", "durable-chunk400"}
+	return []string{"memory", "memory-paged", "sqlite-file", "sqlite-mem", "sqlite-batch1", "sqlite-batch2", "sqlite-batch3", "sqlite-batch5", "sqlite-batch1000", "sqlite-hooks-batch4", "sqlite-nomigrate", "durable", "durable-chunk400"}
 }
 
 var fileSeq atomic.Int64
@@ -88,12 +89,25 @@ func Open(kind, scratch string) (*Opened, error) {
 			n, _ := strconv.Atoi(kind[i+5:])
 			opts = append(opts, sqlite.WithStreamBatchSize(n))
 		}
+		if strings.Contains(kind, "hooks") {
+			// logger and metrics hook set: the instrumented paths must behave the same
+			opts = append(opts, sqlite.WithLogger(nopLogger{}), sqlite.WithMetricsHook(nopMetrics{}), sqlite.WithBusyTimeout(200*time.Millisecond))
+		}
 		path := ":memory:"
 		if kind != "sqlite-mem" {
 			if err := os.MkdirAll(scratch, 0o755); err != nil {
 				return nil, err
 			}
 			path = filepath.Join(scratch, fmt.Sprintf("db-%d-%d.sqlite", os.Getpid(), fileSeq.Add(1)))
+		}
+		if kind == "sqlite-nomigrate" {
+			// an existing database opened with automatic migration switched off
+			first, err := sqlite.New(path)
+			if err != nil {
+				return nil, err
+			}
+			first.Close()
+			opts = append(opts, sqlite.WithAutoMigrate(false))
 		}
 		return openSQLite(kind, path, opts)
 	case strings.HasPrefix(kind, "durable"):
@@ -143,6 +157,19 @@ func (o *Opened) Remove() {
 		os.Remove(o.Path + "-shm")
 	}
 }
+
+type nopLogger struct{}
+
+func (nopLogger) Debug(string, ...any) {}
+func (nopLogger) Info(string, ...any)  {}
+func (nopLogger) Error(string, ...any) {}
+
+type nopMetrics struct{}
+
+func (nopMetrics) OnAppend(time.Duration, error)     {}
+func (nopMetrics) OnRead(time.Duration, int, error)  {}
+func (nopMetrics) OnSaveOffset(time.Duration, error) {}
+func (nopMetrics) OnLoadOffset(time.Duration, error) {}
 
 // Paged hides the optional interfaces of a store (Replay then takes the paged path).
 type Paged struct{ Inner ebu.EventStore }
